@@ -9,6 +9,7 @@ RULE = ('one record per (variant, rounds, key, nonce, start block, data): output
 ASSUMPTIONS = ['pure-Python ChaCha/Salsa/HChaCha/HSalsa models pinned by RFC 8439, ECRYPT, NaCl and draft-xchacha vectors; ChaCha20 also vs openssl']
 FLOORS = {'evaluations': 3000, 'distinct': 1500}
 THOROUGH_ROUNDS = 150   # thorough tier: generator passes with derived seeds (runner.gen_rounds)
+EXTRA_CFGS = ['f32']   # the workload is also executed by the force-32bits build of the library; results must not change (runner.standard_check)
 
 VARIANTS = {  # variant: (key lengths, nonce length, counter bits, has seek)
     'chacha': ((16, 32), 12, 32, True), 'xchacha': ((32,), 24, 32, True), 'chachao': ((16, 32), 8, 64, False),
